@@ -1,4 +1,6 @@
 """C11 - every unicast Subscribe gets exactly one correct Ack or Nack."""
+import random
+
 from .. import scen, stackprop
 
 CODES = {1: "the acknowledgements sent to a subscriber differ from one correct Ack/Nack per unicast Subscribe (ids, counter, TTL, order, time)",
@@ -14,6 +16,8 @@ def run(ctx):
     ctx.assumptions = ["at most one instance matches a given entry (the property's proviso; entries matching several are not judged)"]
     n = 300 if quick else 10000
     scs = stackprop.corpus_scenarios("C11") + [scen.server_scenario(r) for _ in range(n)]
+    r2 = random.Random(ctx.seed * 7919 + 11)      # a stream of its own: the scenarios above stay what they were
+    scs += [scen.pair_in_one_message(r2) for _ in range(30 if quick else 1000)]
     stackprop.run_scenarios(ctx, scs, 3011, CODES, what="subscribe acknowledgements")
 
 
